@@ -2,7 +2,14 @@
 //!
 //! E-FAULT over simulated hierarchies served by the real signing/server code behind a scripted
 //! honest recursive upstream (vsec::hier). See hiers.rs (hierarchies + ground truth), faults.rs
-//! (fault alphabet) and oracle.rs (ground-truth oracle).
+//! (fault alphabet: record-level faults and response-level attacker moves), oracle.rs
+//! (ground-truth oracle on what `DnssecDnsHandle` returns) and server.rs (the server clause:
+//! Catalog + validating forwarder; rcode / AD seen by CD=0 / CD=1 clients).
+//!
+//! Phases: honest runs (vacuity: Secure / Insecure exactly as published, else exit 2) -> closure
+//! of positions under all single faults -> pairs -> server clause. A pair (or a server case) that
+//! contains a single fault which alone already violates the oracle is counted under that single's
+//! key. Cases that use the key of an ancestor zone are executed and logged, never judged.
 
 mod faults;
 mod hiers;
@@ -195,15 +202,19 @@ fn main() {
 
     ctx.set_rule(
         "hierarchies (real InMemoryZoneHandler zones signed by the real code, honest recursive upstream): see coverage.hierarchies; \
-         queries per hierarchy: existing A, NODATA, NXDOMAIN, wildcard, DS, DNSKEY, NS (+ one in the neighbouring zone). Positions = \
-         closure of the upstream queries observed in the honest run and under every single fault. (L1) at every record of every \
-         position: drop, flip one RDATA bit, replace RDATA, change owner, raise TTL, strip the RRset's RRSIGs, re-sign the RRset with \
-         {sibling-zone key, child-zone key, ancestor key, attacker key + injected DNSKEY, attacker zone atk., key of an insecure zone}; \
-         (L2) at every position: forge-unsigned, forge-signed-by K, forge unsupported-algorithm DS, strip answer/authority/both, \
-         rcode := 0/2/3, replace-by-denial(R) for R in {SOA,NS,A,NSEC,NSEC3,DS,DNSKEY} x owner {qname, zone apex, parent apex, name in \
-         an insecure zone, name in a secure sibling} x {unsigned, genuine, attacker-signed}. All singles; pairs = (payload move at the \
-         validator's query) x (every L2 move [thorough: and every L1 fault] at every other position). Oracle: ground truth in the \
-         published zones (oracle.rs). distinct_nontrivial = distinct (hierarchy, query, fault script) executed.",
+         queries per hierarchy: existing A, NODATA, NXDOMAIN, wildcard answer, explicit name below the wildcard's parent, DS, DNSKEY, NS \
+         (+ one in the neighbouring zone, + CNAMEs into a secure and an insecure zone). Positions = closure of the upstream queries \
+         observed in the honest run and under every single fault. (L1) at every record of every position: drop, flip one RDATA bit, \
+         replace RDATA, change owner, raise TTL, strip the RRset's RRSIGs, re-sign the RRset with {key of another secure zone that does \
+         not enclose the owner (sibling / child), ancestor key [logged only], attacker key + injected DNSKEY, attacker zone atk., key of \
+         an insecure zone, attacker key with the zone key's algorithm and key tag}; (L2) at every position: forge-unsigned, forge-signed-by \
+         K, forge unsupported-algorithm DS, replay the zone's genuine wildcard RRset for the query name, strip answer/authority/both, \
+         rcode := 0/2/3, genuine SOA + forged unsigned apex NSEC, replace-by-denial(R) for R in {SOA,NS,A,NSEC,NSEC3,DS,DNSKEY} x owner \
+         {qname, zone apex, parent apex, name in an insecure zone, name in a secure sibling} x {unsigned, genuine, attacker-signed}. All \
+         singles; pairs = (forge/replay/strip move at the validator's query) x (every L2 move [thorough: and every L1 fault] at every other \
+         position) [quick: for the positive-A, DS and DNSKEY queries]. Server clause: Catalog + validating ForwardZoneHandler (real \
+         Resolver) over the same upstream, honest + every single fault x client CD/DO/AD variants. Oracle: ground truth in the published \
+         zones (oracle.rs, server.rs). distinct_nontrivial = distinct (hierarchy, query, fault script) executed on the validator.",
     );
     ctx.assume("ring signature primitives; the published zone contents and the DS/DNSKEY links computed from them (hiers.rs::status) are the ground truth");
     ctx.assume("an attacker may hold the keys of sibling / child / insecure zones and fresh keys, not of an ancestor of the target (ancestor-key cases are logged, not judged)");
